@@ -1016,11 +1016,17 @@ def run_case(spec):
         for k, ext in enumerate(frames1):
             if k < len(frames2) and frames2[k] == ext and stream1[ext[0]:ext[1]] == stream2[ext[0]:ext[1]]:
                 o1, o2 = _outcome(obs1, k), _outcome(obs2, k)
+                show1 = ([_brief(r) for r in o1[0]], o1[1])
+                show2 = ([_brief(r) for r in o2[0]], o2[1])
+                final = aligned1 and k == len(frames1) - 1
+                if not final and obs1.engine.get(k) and obs2.engine.get(k):
+                    # an executed earlier request may answer with fresh randomness (server-side
+                    # IV, PSS salt): compare what the answers say, not their bytes
+                    o1, o2 = show1, show2
                 if o1 != o2:
                     add("C12|chunking|response-depends-on-schedule",
                         "frame %d: schedule %r -> %s / errors %s; schedule %r -> %s / errors %s"
-                        % (k, chunks1[:8], [_brief(r) for r in o1[0]], o1[1], chunks2[:8],
-                           [_brief(r) for r in o2[0]], o2[1]))
+                        % (k, chunks1[:8], show1[0], show1[1], chunks2[:8], show2[0], show2[1]))
         if frames1 == frames2 and stream1 == stream2 and obs1.final_dump != obs2.final_dump:
             m1 = hist.snapshot(srv1, _all_uids(srv1))
             m2 = hist.snapshot(srv2, _all_uids(srv2))
